@@ -322,6 +322,8 @@ def execute(s, ch):
                           "shutdown returned" % (len(w.pushed) - mark_p, [c[2] for c in acts][:4], threads)))
         if len(w.service.polls) > mark_polls:
             viol.append(V("polls-after-shutdown", "%d polls" % (len(w.service.polls) - mark_polls)))
+        if w.sink.stale:
+            viol.append(V("callback-on-plugin-of-an-earlier-life", str(w.sink.stale[:3])))
         open_channels = [c for c in w.service.channels if not c.closed]
         if open_channels:
             # an open channel is not passive: it keeps (re)connecting to the service, and every start opens one more
